@@ -89,6 +89,19 @@ pub fn units(tier: Tier, seed: u64) -> Vec<Unit> {
             }
         }
     }
+    // every other window length up to 17 and the power-of-two neighbourhoods: free and strictly increasing streams along sampled paths
+    for &n in &(if q { vec![4usize, 5, 6, 7, 9, 10, 12, 16, 17, 31, 32, 33] } else { vec![4usize, 5, 6, 7, 9, 10, 11, 12, 13, 14, 15, 17, 31, 33, 63, 65, 100, 128] }) {
+        for vk in raw_wrappers(n) {
+            if vk.is_leaf() || matches!(vk, VK::Gte(_) | VK::Lte(_) | VK::Tanh | VK::Drawdown | VK::LnReturn | VK::WelfordRolling | VK::LaguerreFilter(_)) { continue; }
+            let wl = match &vk { VK::Roofing(a, b) => a + b + 1, _ => n };
+            let k = if matches!(vk, VK::NET(_)) && n > 16 { wl + 2 } else { (2 * wl + 3).min(wl + 24) };
+            for shape in [Shape::Free, Shape::Increasing] {
+                let mut c = unit!(format!("C15/{}/{shape:?}/sample-path/k={k}", vk.name()), no_panic(vk.clone(), None, k, shape, vec![1usize, 0, 2]));
+                c.concolic = Some(seed * 7 + 5);
+                u.push(c);
+            }
+        }
+    }
     // seeded two-level chains at N=2 and N=1
     let pool: Vec<VK> = raw_wrappers(2).into_iter().chain(raw_wrappers(1)).filter(|v| !matches!(v, VK::NET(_) | VK::EFT(..) | VK::HLNormalizer(_)) && !v.is_leaf()).collect();
     let inner_pool: Vec<VK> = raw_wrappers(2).into_iter().filter(|v| matches!(v, VK::Gte(_) | VK::Lte(_) | VK::Tanh | VK::Sma(_) | VK::Ema(_) | VK::Alma(_) | VK::Cumulative(_) | VK::SuperSmoother(_) | VK::LaguerreFilter(_) | VK::CyberCycle(_) | VK::Roofing(..) | VK::Min(_) | VK::Max(_) | VK::Roc(_) | VK::BinaryEntropy(_))).collect();
@@ -107,7 +120,7 @@ pub fn units(tier: Tier, seed: u64) -> Vec<Unit> {
 pub fn meta() -> Meta {
     Meta {
         functions: vec!["every view of the crate ::{new,update,last} at exactly the requested window length (PFE and EFT with identity and Ema averages, Roofing(N,N) and (N,1)), seeded two-level chains, the four combinators"],
-        bounds: "fully symbolic inputs, all comparison outcomes: N in {1,2,3} (quick) / {1..5} (thorough), k = 2N+3 (<= 7 for heavily branching views); N in {8,64} (quick) / {8,16,32,64}: streams that are constant, strictly increasing (symbolic positive increments), alternating between two symbolic values, or free, each along the comparison path of 1 (quick) / 3 (thorough) pseudo-random samples of the symbolic parameters (concolic: the verdict covers every input following that path), k = 2N+3 (capped at N+40); last() called 0..2 times between updates in a VERIF_SEED-chosen pattern; 30 / 150 seeded two-level chains at N in {1,2}; positive inputs for Drawdown/LnReturn, non-zero divisor for Divide; this binary is built with debug assertions and overflow checks ON, and the same units are re-run by the release build (both OFF, wrapping usize)",
+        bounds: "fully symbolic inputs, all comparison outcomes: N in {1,2,3} (quick) / {1..5} (thorough), k = 2N+3 (<= 7 for heavily branching views); N in {8,64} (quick) / {8,16,32,64}, and free / increasing streams at every N in {4,5,6,7,9,10,12,16,17,31,32,33} (quick; thorough up to 128): streams that are constant, strictly increasing (symbolic positive increments), alternating between two symbolic values, or free, each along the comparison path of 1 (quick) / 3 (thorough) pseudo-random samples of the symbolic parameters (concolic: the verdict covers every input following that path), k = 2N+3 (capped at N+40); last() called 0..2 times between updates in a VERIF_SEED-chosen pattern; 30 / 150 seeded two-level chains at N in {1,2}; positive inputs for Drawdown/LnReturn, non-zero divisor for Divide; this binary is built with debug assertions and overflow checks ON, and the same units are re-run by the release build (both OFF, wrapping usize)",
         outside: vec!["window lengths above 64 and between the listed ones", "f64-specific panics (the crate's finiteness debug_assert! firing on rounding residue, overflow to Inf): see kani/ (engine K)", "chains deeper than two"],
         assumptions: vec!["inputs are reals (finite by construction); a division by a value that can be exactly zero yields the IEEE special, so the crate's own is_finite() assertions see it"],
     }
